@@ -470,7 +470,7 @@ func genUpload(t *rapid.T) UploadCase {
 	c.MaxMemory = rapid.SampledFrom([]int64{0, 0, 1, 64, 1 << 20}).Draw(t, "maxmem")
 	c.MaxUpload = rapid.SampledFrom([]int64{0, 0, 1 << 20, 200, 4000}).Draw(t, "maxupload")
 	// structural defects
-	switch rapid.IntRange(0, 11).Draw(t, "defect") {
+	switch rapid.IntRange(0, 21).Draw(t, "defect") {
 	case 0:
 		c.Defect, c.WellFormed = "bad-path", false
 		bad := rapid.SampledFrom(badPaths).Draw(t, "badpath")
